@@ -624,11 +624,57 @@ def native_replay(u, inputs, outdir, tag):
         return None, "replay link failed: " + se[-1500:]
     args = ["%s=%s" % (k, v.get("binary") or v.get("data")) for k, v in sorted(inputs.items())]
     rc, so, se, dt = sh([exe] + args, timeout=120)
+    out = (so + se)[-4000:]
+    if rc == 0 and u.mode in ("ABS", "RING") and inputs:
+        # the model's values for the uninterpreted operations are not the real ones: search concrete inputs natively
+        # (same harness, same oracle) so that the report can carry an input that fails on the real code
+        found = _replay_search(exe, inputs)
+        if found:
+            rc, out = 1, out + "\nnot reproduced on the verifier's model inputs (abstract arithmetic); native search over %d random inputs found a failing one:\n%s\n%s" % (found[2], " ".join(found[0]), found[1])
     try:
         os.remove(exe)
     except OSError:
         pass
-    return rc, (so + se)[-4000:]
+    return rc, out
+
+
+def _replay_search(exe, inputs, tries=300):
+    import random, struct
+    rnd = random.Random(12345)
+    rc, so, se, dt = sh([exe, "--types"], timeout=30)
+    types = {}
+    for l in so.splitlines():
+        m = re.match(r"VF_TYPE (\S+) (.+) (\d+)$", l)
+        if m:
+            types[m.group(1)] = (m.group(2).strip(), int(m.group(3)) * 8)
+    if not types:
+        return None
+    keys = sorted(types)
+    inputs = {k: {"type": types[k][0], "binary": "0" * types[k][1]} for k in keys}
+
+    def isfloat(v):
+        return v.get("type") in ("float", "double")
+
+    def bits(x, w):
+        return format(x & ((1 << w) - 1), "0%db" % w)
+    for n in range(tries):
+        args = []
+        for k in keys:
+            v = inputs[k]
+            w = len(v.get("binary") or "") or 32
+            if isfloat(v) and w in (32, 64):
+                f = rnd.choice([rnd.uniform(-2, 2), rnd.uniform(-2, 2), rnd.uniform(-10, 10), float(rnd.randint(-3, 3)), rnd.uniform(0.1, 1.0)])
+                b = struct.unpack("<I", struct.pack("<f", f))[0] if w == 32 else struct.unpack("<Q", struct.pack("<d", f))[0]
+                args.append("%s=%s" % (k, bits(b, w)))
+            elif w == 1:
+                args.append("%s=%d" % (k, rnd.randint(0, 1)))
+            else:
+                x = rnd.choice([rnd.randint(-3, 3), rnd.randint(0, 7), rnd.getrandbits(w)])
+                args.append("%s=%s" % (k, bits(x, w)))
+        rc, so, se, dt = sh([exe] + args, timeout=30)
+        if rc == 1 or rc < 0:
+            return args, (so + se)[-1500:], n + 1
+    return None
 
 
 # --------------------------------------------------------------------------
